@@ -148,21 +148,30 @@ QUOTED_SPLIT_RE = re.compile(r"(%[0-9A-Fa-f]{2})")
 QUOTED_RE = re.compile(r"^%[0-9A-Fa-f]{2}$")
 
 
-def safely_quote_iter(string):
+def safely_quote_iter(string, safe="/"):
     for piece in QUOTED_SPLIT_RE.split(string):
         if QUOTED_RE.match(piece):
             yield piece
         else:
-            yield quote(piece)
+            yield quote(piece, safe)
 
 
-def safely_quote(string):
-    return "".join(safely_quote_iter(string))
+def safely_quote(string, safe="/"):
+    return "".join(safely_quote_iter(string, safe))
+
+
+# NOTE: a raw "=" in a value (resp. ":" in a password) is plain data that
+# unquoting will not restore if we quote it, so it is left as is
+def safely_quote_password(password):
+    return safely_quote(password, safe="/:")
 
 
 def safely_quote_qsl(qsl):
     return [
-        (safely_quote(key), safely_quote(value) if value is not None else None)
+        (
+            safely_quote(key),
+            safely_quote(value, safe="/=") if value is not None else None,
+        )
         for key, value in qsl
     ]
 
@@ -186,6 +195,7 @@ __all__ = [
     "safely_unquote_fragment",
     "safely_unquote_qsl",
     "safely_quote",
+    "safely_quote_password",
     "safely_quote_qsl",
     "upper_quoted",
 ]
